@@ -858,6 +858,15 @@ Hdupdd(int32  file_id, /* IN: File ID the tag/refs are in */
     if ((old_dd = HTPselect(file_rec, old_tag, old_ref)) == FAIL)
         HGOTO_ERROR(DFE_NOMATCH, FAIL);
 
+    /* The DD of a special element holds its description record and is recognised by
+       the special tag only: the duplicate has to carry the special tag as well, or the
+       new tag/ref would present the description record as if it were the data */
+    if (HTPis_special(old_dd) == TRUE && !SPECIALTAG(tag)) {
+        if (MKSPECIALTAG(tag) == DFTAG_NULL)
+            HGOTO_ERROR(DFE_ARGS, FAIL);
+        tag = MKSPECIALTAG(tag);
+    }
+
     /* Create the new DD in the file */
     if ((new_dd = HTPcreate(file_rec, tag, ref)) == FAIL)
         HGOTO_ERROR(DFE_DUPDD, FAIL);
